@@ -50,7 +50,7 @@ class GenDoc:
         return [p for k, p in self.lines if k == 'row']
 
 
-def _data_cell(rng, htype, spine, p_null=0.15, chords=True):
+def _data_cell(rng, htype, spine, p_null=0.15, chords=True, rest_in_chord=0.03):
     if rng.random() < p_null:
         return Cell('.', 'null', spine, htype)
     if htype in ('**kern', '**root'):
@@ -60,7 +60,7 @@ def _data_cell(rng, htype, spine, p_null=0.15, chords=True):
         elif r < 0.75:
             t, a = tokens.gen_rest(rng)
         elif chords:
-            t, a = tokens.gen_chord(rng)
+            t, a = tokens.gen_chord(rng, rest_in_chord)
         else:
             t, a = tokens.gen_note(rng)
         return Cell(t, a['kind'], spine, htype, a)
@@ -69,9 +69,10 @@ def _data_cell(rng, htype, spine, p_null=0.15, chords=True):
 
 def gen_doc(rng, *, kern_only=False, max_spines=4, splits=True, core=False, comments=True, measures=None,
             mid_signatures=True, opening_barline=None, final_barline=None, chords=True, free_headers=False,
-            hidden_barlines=False):
+            hidden_barlines=False, force_clef=False, plain_acc=False, rest_in_chord=0.03):
     """core=True: signatures only before the first measure, splits re-joined before the next barline (C08's core)"""
     g = GenDoc()
+    tokens.PLAIN_ACC = plain_acc
     n = rng.randint(1, max_spines)
     types = ['**kern'] + [rng.choice(SPINE_TYPES) for _ in range(n - 1)]
     if kern_only:
@@ -108,7 +109,9 @@ def gen_doc(rng, *, kern_only=False, max_spines=4, splits=True, core=False, comm
     def signature_rows(uniform):
         # in the core class every live path gets every signature class (rectangular preamble)
         for choices in (CLEFS, KEYSIGS, METERS):
-            if rng.random() < 0.8:
+            if choices is CLEFS and force_clef:
+                row(lambda i, sp, ht: Cell(rng.choice(choices), 'interp', sp, ht))
+            elif rng.random() < 0.8:
                 if uniform:
                     row(lambda i, sp, ht: Cell(rng.choice(choices), 'interp', sp, ht))
                 else:
@@ -128,6 +131,7 @@ def gen_doc(rng, *, kern_only=False, max_spines=4, splits=True, core=False, comm
     opening = opening_barline if opening_barline is not None else rng.random() < 0.6
     final = final_barline if final_barline is not None else rng.random() < 0.6
     number = 1
+    started = False   # a barline or data row has been written (core documents do not split before that)
     in_split = None   # index of the first sub-path of a split
 
     def barline():
@@ -155,6 +159,7 @@ def gen_doc(rng, *, kern_only=False, max_spines=4, splits=True, core=False, comm
     for m in range(nmeasures):
         if m > 0 or opening:
             barline()
+            started = True
         elif rng.random() < 0.3:
             g.flags.add('pickup')
         for _ in range(rng.randint(1, 3)):
@@ -174,7 +179,7 @@ def gen_doc(rng, *, kern_only=False, max_spines=4, splits=True, core=False, comm
                 interp_row(rng.choice([CLEFS, KEYSIGS, METERS, TANDEM]))
                 g.flags.add('mid-signature')
                 continue
-            if splits and in_split is None and r < 0.34 and len(paths) < 6:
+            if splits and in_split is None and r < 0.34 and len(paths) < 6 and (started or not core):
                 cands = [i for i, (sp, ht) in enumerate(paths) if ht == '**kern']
                 if cands:
                     k = rng.choice(cands)
@@ -187,7 +192,8 @@ def gen_doc(rng, *, kern_only=False, max_spines=4, splits=True, core=False, comm
             if in_split is not None and r < 0.45:
                 join_split()
                 continue
-            row(lambda i, sp, ht: _data_cell(rng, ht, sp, chords=chords))
+            row(lambda i, sp, ht: _data_cell(rng, ht, sp, chords=chords, rest_in_chord=rest_in_chord))
+            started = True
         if in_split is not None and (core or rng.random() < 0.7):
             join_split()
     if final:
